@@ -1,5 +1,7 @@
 From Coq Require Import ZArith Bool List.
+From Coq Require Import NArith.
 From V Require Import Base.GoInt Base.Bytes gen.GetEntries gen.HttpStatus CTFE.GetEntriesModel Base.CaseLib.
+From V Require Import TLS.TlsModel TLS.TlsCase CT.Rfc6962Spec CTFE.ChainStoreModel.
 Import ListNotations.
 Open Scope Z_scope.
 
@@ -11,7 +13,11 @@ Inductive reply :=
 
 Inductive case :=
 | CGet (maxr : Z) (align : bool) (ps pe : param) (r : reply)
-       (status : Z) (req : option (Z * Z)) (served : list (bytes * bytes)).
+       (status : Z) (req : option (Z * Z)) (served : list (bytes * bytes))
+(* a served entry and what the library's entry parser made of it: timestamp, certificate (or
+   precertificate with issuer key hash and TBS) and chain.  The served bytes must be the RFC 6962
+   encodings (CT/Rfc6962Spec.enc_leaf, CTFE/ChainStoreModel.extra_direct) of exactly that. *)
+| CEntry (precert : bool) (ts : N) (cert ikh tbs : bytes) (chain : list bytes) (leaf_input extra : bytes).
 
 Definition to_bres (r : reply) : bres :=
   match r with
@@ -21,7 +27,13 @@ Definition to_bres (r : reply) : bres :=
   end.
 
 Definition run (c : case) : outcome :=
-  match c with CGet maxr align ps pe r _ _ _ => get_entries maxr align ps pe (fun _ _ => to_bres r) end.
+  match c with
+  | CGet maxr align ps pe r _ _ _ => get_entries maxr align ps pe (fun _ _ => to_bres r)
+  | CEntry _ _ _ _ _ _ _ _ => get_entries 1 false PBad PBad (fun _ _ => BErr 500)
+  end.
+
+Definition entry_of (precert : bool) (cert ikh tbs : bytes) : entry :=
+  if precert then PrecertE ikh tbs else X509E cert.
 
 Definition check (c : case) : bool :=
   match c with
@@ -29,6 +41,9 @@ Definition check (c : case) : bool :=
       let o := run c in
       (o_status o =? status) && opt_eqb (pair_eqb Z.eqb Z.eqb) (o_request o) req
       && list_eqb (pair_eqb bytes_eqb bytes_eqb) (o_served o) served
+  | CEntry precert ts cert ikh tbs chain leaf_input extra =>
+      bytes_eqb (enc_leaf ts (entry_of precert cert ikh tbs) []) leaf_input
+      && res_eqb bytes_eqb (extra_direct precert cert chain) (Ok extra)
   end.
 
 Definition explain (c : case) := let o := run c in (o_status o, o_request o, o_served o).
